@@ -153,6 +153,13 @@ func (f *File) resolve() error {
 			return fmt.Errorf("%v: %w", f.Name, err)
 		}
 	}
+
+	// Check imports are used, otherwise the generated code does not compile
+	for _, imp := range f.Imports {
+		if !imp.Used {
+			return fmt.Errorf("%v: unused import %q", f.Name, imp.ID)
+		}
+	}
 	return nil
 }
 
